@@ -1,9 +1,69 @@
 import NmVerif.Proto
+import NmVerif.NN.Conv
+import NmVerif.NN.Pool
 namespace NmVerif.Driver.C17
-open NmVerif NmVerif.Proto
+open NmVerif NmVerif.Proto NmVerif.NN
 
-def handle : Handler := fun op _args =>
+/-- array of the request: shape `<key>s`, integer data `<key>` (row-major) -/
+def mkArr (a : Args) (key : String) : Option (Arr Int) := do
+  let shape ← a.nats (key ++ "s")
+  let data ← a.ints key
+  if data.length ≠ prod shape then none
+  let arr := data.toArray
+  pure ⟨shape, fun i => arr.getD (computeOffset i (strides shape)) 0⟩
+
+def pArg (a : Args) (key : String) : Option PArg :=
+  match a.get? key with
+  | none => none
+  | some "None" => some .none
+  | some s => match parseNats s with
+    | some [v] => some (.int v)
+    | some l => some (.arr l)
+    | none => none
+
+def fmtArr (r : Arr Int) : String :=
+  s!"ok shape={fmtNats r.shape} data={fmtInts ((allIdx r.shape).map r.get)}"
+
+def fmtRes : Res (Arr Int) → String
+  | .ok r => fmtArr r
+  | .nothing => "nothing"
+  | .ub why => s!"ub:{why}"
+
+def conv (n : Nat) (a : Args) : Option String := do
+  let x ← mkArr a "x"
+  let w ← mkArr a "w"
+  let b ← (match a.get? "b" with
+    | some "None" => some none
+    | some _ => (mkArr a "b").map some
+    | none => none)
+  let s ← pArg a "stride"
+  let p ← pArg a "padding"
+  let d ← pArg a "dilation"
+  let g ← a.nat "groups"
+  pure (fmtRes (convnd n x w b s p d g))
+
+def handle : Handler := fun op a =>
   match op with
+  | "conv1d" => orBad (conv 1 a)
+  | "conv2d" => orBad (conv 2 a)
+  | "pool_shape" => orBad do
+      let s ← a.nats "shape"; let k ← a.nats "kernel"; let st ← a.nats "stride"; let c ← a.nat "ceil"
+      match shapePool2d s k st (c != 0) with
+      | some r => pure s!"ok {fmtNats r}"
+      | none => pure "ub:rank"
+  | "pool_slice" => orBad do
+      let i ← a.nats "idx"; let sh ← a.nats "shape"; let k ← a.nats "kernel"; let st ← a.nats "stride"
+      match slicePool2d i sh k st with
+      | some r => pure ("ok " ++ ";".intercalate (r.map fun t => s!"{t.1},{t.2.1},{t.2.2}"))
+      | none => pure "ub:rank"
+  | "pool_fold" => orBad do
+      let s ← a.nats "xs"; let k ← a.nats "kernel"; let st ← a.nats "stride"; let c ← a.nat "ceil"
+      match shapePool2d s k st (c != 0) with
+      | none => pure "ub:rank"
+      | some os =>
+        match (allIdx os).mapM (poolFold s k st) with
+        | some vals => pure s!"ok shape={fmtNats os} data={fmtNats vals}"
+        | none => pure "ub:window"
   | _ => none
 
 end NmVerif.Driver.C17
